@@ -27,7 +27,7 @@ from EasyFEA.FEM._group_elem import GroupElemFactory
 TOL = 1e-9
 
 
-def quad_mesh(nx, ny, lx=1.0, ly=1.0):
+def quad_mesh(nx, ny, lx=1.0, ly=1.0, elem="QUAD4"):
     xs = np.linspace(0, lx, nx + 1)
     ys = np.linspace(0, ly, ny + 1)
     coord = np.array([[x, y, 0.0] for y in ys for x in xs])
@@ -35,9 +35,14 @@ def quad_mesh(nx, ny, lx=1.0, ly=1.0):
     for j in range(ny):
         for i in range(nx):
             a = j * (nx + 1) + i
-            con.append([a, a + 1, a + nx + 2, a + nx + 1])
-    g = GroupElemFactory.Create(ElemType.QUAD4, np.array(con), coord)
-    return Mesh({ElemType.QUAD4: g})
+            if elem == "TRI3":   # same nodes, every quadrangle split in two triangles
+                con.append([a, a + 1, a + nx + 2])
+                con.append([a, a + nx + 2, a + nx + 1])
+            else:
+                con.append([a, a + 1, a + nx + 2, a + nx + 1])
+    et = ElemType.TRI3 if elem == "TRI3" else ElemType.QUAD4
+    g = GroupElemFactory.Create(et, np.array(con), coord)
+    return Mesh({et: g})
 
 
 def clone_mesh(mesh):
@@ -121,6 +126,7 @@ class SimRec:
         self.ray = None
         self.algo = None
         self.bcs = []
+        self.state_live = False   # False: the solution state is the blank one of a just built / just re-meshed simulation
 
     def flags(self):
         s = self.simu
@@ -244,7 +250,7 @@ class World:
                 NAMED["tip"] = simu.mesh.Nodes_Point(Point(L, L))
             self.sims.append(SimRec(self.typ, simu))
         elif k == "newmesh":
-            self.meshes.append(quad_mesh(op["nx"], op["ny"], op.get("lx", 1.0) * self.scale, op.get("ly", 1.0) * self.scale))
+            self.meshes.append(quad_mesh(op["nx"], op["ny"], op.get("lx", 1.0) * self.scale, op.get("ly", 1.0) * self.scale, op.get("elem", "QUAD4")))
         elif k == "param":
             self.state["params"][op["name"]] = op["value"]
             set_param(self.typ, self.model, op.get("sub", False), op["name"], op["value"])
@@ -288,6 +294,7 @@ class World:
             elif k == "setmesh":
                 s.mesh = self.meshes[op["m"]]
                 rec.bcs = []
+                rec.state_live = False
             elif k == "bcinit":
                 s.Bc_Init()
                 rec.bcs = []
@@ -304,10 +311,12 @@ class World:
                 elif rec.typ != "HyperElastic":
                     s.Get_K_C_M_F()
             elif k == "solve":
+                rec.state_live = True
                 do_solve(rec)
             elif k == "saveiter":
                 s.Save_Iter()
             elif k == "setiter":
+                rec.state_live = True
                 s.Set_Iter(op["j"])
             else:
                 raise ValueError(k)
@@ -338,6 +347,10 @@ class World:
         for bc in rec.bcs:
             apply_bc(frec, bc)
         frec.bcs = list(rec.bcs)
+        if not rec.state_live:
+            # nothing was solved / restored since the simulation was built or re-meshed: the reference keeps the
+            # blank state of a new simulation (a mesh replacement must not carry the old fields over)
+            return frec
         for pt in s.Get_problemTypes():
             f._Set_solutions(pt, s._Get_u_n(pt), s._Get_v_n(pt), s._Get_a_n(pt))
         if self.typ == "PhaseField":
@@ -375,6 +388,11 @@ class World:
             except Exception as ex:  # noqa
                 out.append((name, "EXC %s: %s" % (type(ex).__name__, str(ex)[:120])))
 
+        # the live fields, read BEFORE the next solve
+        for pt in s.Get_problemTypes():
+            grab("u_now:%s" % pt, lambda pt=pt: s._Get_u_n(pt))
+            grab("v_now:%s" % pt, lambda pt=pt: s._Get_v_n(pt))
+            grab("a_now:%s" % pt, lambda pt=pt: s._Get_a_n(pt))
         if rec.typ == "PhaseField":
             # ONE evaluation right after the last change: derived quantities cached on the model must be fresh
             grab("psiP", lambda: s.Result("psiP", nodeValues=False))
